@@ -10,6 +10,9 @@ if [ "$ROUND" = "1" ]; then
 elif [ "$ROUND" = "3" ]; then
   ROOT=/tmp/seed3
   SPECS="C01-control-length-u16-add-overflow:C01 C02-reveal-chunk-granular-bound:C02 C03-resultcode-msg-fffd-rejected:C03 C04-data-length-patched-at-absolute-2:C04 C05-data-header-length-u16-wrap:C05 C06-length-member-12-drops-avps:C06 C07-writer-default-method-native-endian:C07 C08-control-guard-len-as-u16:C08 C09-backpatch-skipped-when-length-equals-end:C09 C10-encoder-refuses-exactly-65535:C10 C11-scratch-buffer-241-250-secret-panics:C11 C12-scratch-buffer-241-250-secret-truncates:C12 C13-resultcode-all-nul-message-panics:C13 C14-try-read-skips-optional-vendor-avps:C14 C15-greedy-stops-after-256-records:C15 C18-bytes-position-plus-length-overflow:C18 C19-secret-prefix-memo-keyed-by-address:C19 C20-q931-dangling-lead-octet-accepted:C20"
+elif [ "$ROUND" = "4" ]; then
+  ROOT=/tmp/seed4
+  SPECS="C01-q931-strip-terminator-char-boundary:C01 C02-data-header-mask-admits-reserved-bit:C02 C03-hidden-type36-len4-decoded-as-random-vector:C03 C04-data-encoder-refuses-exactly-65535:C04 C05-resultcode-msg-fffd-rejected-2:C05 C06-lcp-confreq-header-stripped:C06 C07-resultcode-general-error-default-error-code:C07 C08-zlb-fast-path-leaves-pad:C08 C09-last-header-atomic-race:C09 C10-rx-speed-dropped-when-equal-to-tx:C10 C11-hide-length-from-get-length-chars:C11 C12-secret-prefix-cache-prefix-compare:C12 C13-reveal-inline-buffer-239-240:C13 C14-version-exemption-for-opening-sccrq:C14 C15-zero-header-ends-list-silently:C15 C18-overwrite-refusal-not-atomic:C18 C19-error-report-hashset-order:C19 C20-nonmandatory-avp-errors-swallowed:C20"
 else
   ROOT=/tmp/seed2
   SPECS="C01-resultcode-error-guard-weakened:C01 C02-stale-length-offset-check:C02 C03-avp-count-bound-8-octets:C03 C04-zero-offset-flag-omitted:C04 C05-hidden-vendor-accepted-2:C05 C06-header-length-from-get-length-chars:C06 C07-encoder-trusts-nonzero-length:C07 C08-reserved-flag-bit-leaks-into-length:C08 C09-length-bits-from-page-difference:C09 C10-zlb-stale-length:C10 C11-reveal-rejects-empty-value:C11 C12-hide-length-subfield-layout:C12 C13-reveal-lower-bound-lost:C13 C14-unused-rejects-slack-octets:C14 C15-unknown-avp-without-m-dropped:C15 C18-overwrite-at-zero-saturating-guard:C18 C19-global-strict-reserved-switch:C19 C20-bare-error-type-not-read:C20"
